@@ -304,4 +304,69 @@ theorem rhombohedral6_R2x (C11 C12 C13 C14 C33 C44 : K) :
       = cijklGet (m6 (ctor_C11_C12_C13_C14_C33_C44 C11 C12 C13 C14 C33 C44)) := by
   apply invariant_of_entries; rw [R2x_sp]; sp_entries ctor_C11_C12_C13_C14_C33_C44
 
+
+/-! ## the templates are symmetric and carry each named constant `Cab` at `[a-1, b-1]` -/
+
+macro "symm_entries" tmpl:ident : tactic => `(tactic|
+  (intro a b
+   fin_cases a <;> fin_cases b <;> simp [m6, $tmpl:ident]))
+
+section named
+variable (C11 C12 C13 C14 C15 C16 C22 C23 C24 C25 C26 C33 C34 C35 C36 C44 C45 C46 C55 C56 C66 : K)
+
+theorem cubic_symm : Symm6 (m6 (ctor_C11_C12_C44 C11 C12 C44)) := by symm_entries ctor_C11_C12_C44
+theorem hexagonal_symm : Symm6 (m6 (ctor_C11_C12_C13_C33_C44 C11 C12 C13 C33 C44)) := by
+  symm_entries ctor_C11_C12_C13_C33_C44
+theorem rhombohedral_symm : Symm6 (m6 (ctor_C11_C12_C13_C14_C15_C33_C44 C11 C12 C13 C14 C15 C33 C44)) := by
+  symm_entries ctor_C11_C12_C13_C14_C15_C33_C44
+theorem tetragonal_symm : Symm6 (m6 (ctor_C11_C12_C13_C16_C33_C44_C66 C11 C12 C13 C16 C33 C44 C66)) := by
+  symm_entries ctor_C11_C12_C13_C16_C33_C44_C66
+theorem orthorhombic_symm :
+    Symm6 (m6 (ctor_C11_C12_C13_C22_C23_C33_C44_C55_C66 C11 C12 C13 C22 C23 C33 C44 C55 C66)) := by
+  symm_entries ctor_C11_C12_C13_C22_C23_C33_C44_C55_C66
+theorem monoclinic_symm :
+    Symm6 (m6 (ctor_C11_C12_C13_C15_C22_C23_C25_C33_C35_C44_C46_C55_C66
+      C11 C12 C13 C15 C22 C23 C25 C33 C35 C44 C46 C55 C66)) := by
+  symm_entries ctor_C11_C12_C13_C15_C22_C23_C25_C33_C35_C44_C46_C55_C66
+theorem triclinic_symm :
+    Symm6 (m6 (ctor_C11_C12_C13_C14_C15_C16_C22_C23_C24_C25_C26_C33_C34_C35_C36_C44_C45_C46_C55_C56_C66
+      C11 C12 C13 C14 C15 C16 C22 C23 C24 C25 C26 C33 C34 C35 C36 C44 C45 C46 C55 C56 C66)) := by
+  symm_entries ctor_C11_C12_C13_C14_C15_C16_C22_C23_C24_C25_C26_C33_C34_C35_C36_C44_C45_C46_C55_C56_C66
+
+theorem cubic_named :
+    let c := m6 (ctor_C11_C12_C44 C11 C12 C44)
+    c 0 0 = C11 ∧ c 0 1 = C12 ∧ c 3 3 = C44 := by simp [m6, ctor_C11_C12_C44]
+theorem hexagonal_named :
+    let c := m6 (ctor_C11_C12_C13_C33_C44 C11 C12 C13 C33 C44)
+    c 0 0 = C11 ∧ c 0 1 = C12 ∧ c 0 2 = C13 ∧ c 2 2 = C33 ∧ c 3 3 = C44 ∧ 2 * c 5 5 = C11 - C12 := by
+  simp [m6, ctor_C11_C12_C13_C33_C44]; ring
+theorem rhombohedral_named :
+    let c := m6 (ctor_C11_C12_C13_C14_C15_C33_C44 C11 C12 C13 C14 C15 C33 C44)
+    c 0 0 = C11 ∧ c 0 1 = C12 ∧ c 0 2 = C13 ∧ c 0 3 = C14 ∧ c 0 4 = C15 ∧ c 2 2 = C33 ∧ c 3 3 = C44 ∧
+      2 * c 5 5 = C11 - C12 := by
+  simp [m6, ctor_C11_C12_C13_C14_C15_C33_C44]; ring
+theorem tetragonal_named :
+    let c := m6 (ctor_C11_C12_C13_C16_C33_C44_C66 C11 C12 C13 C16 C33 C44 C66)
+    c 0 0 = C11 ∧ c 0 1 = C12 ∧ c 0 2 = C13 ∧ c 0 5 = C16 ∧ c 2 2 = C33 ∧ c 3 3 = C44 ∧ c 5 5 = C66 := by
+  simp [m6, ctor_C11_C12_C13_C16_C33_C44_C66]
+theorem orthorhombic_named :
+    let c := m6 (ctor_C11_C12_C13_C22_C23_C33_C44_C55_C66 C11 C12 C13 C22 C23 C33 C44 C55 C66)
+    c 0 0 = C11 ∧ c 0 1 = C12 ∧ c 0 2 = C13 ∧ c 1 1 = C22 ∧ c 1 2 = C23 ∧ c 2 2 = C33 ∧ c 3 3 = C44 ∧ c 4 4 = C55 ∧
+      c 5 5 = C66 := by
+  simp [m6, ctor_C11_C12_C13_C22_C23_C33_C44_C55_C66]
+theorem monoclinic_named :
+    let c := m6 (ctor_C11_C12_C13_C15_C22_C23_C25_C33_C35_C44_C46_C55_C66
+      C11 C12 C13 C15 C22 C23 C25 C33 C35 C44 C46 C55 C66)
+    c 0 0 = C11 ∧ c 0 1 = C12 ∧ c 0 2 = C13 ∧ c 0 4 = C15 ∧ c 1 1 = C22 ∧ c 1 2 = C23 ∧ c 1 4 = C25 ∧ c 2 2 = C33 ∧
+      c 2 4 = C35 ∧ c 3 3 = C44 ∧ c 3 5 = C46 ∧ c 4 4 = C55 ∧ c 5 5 = C66 := by
+  simp [m6, ctor_C11_C12_C13_C15_C22_C23_C25_C33_C35_C44_C46_C55_C66]
+theorem triclinic_named :
+    let c := m6 (ctor_C11_C12_C13_C14_C15_C16_C22_C23_C24_C25_C26_C33_C34_C35_C36_C44_C45_C46_C55_C56_C66
+      C11 C12 C13 C14 C15 C16 C22 C23 C24 C25 C26 C33 C34 C35 C36 C44 C45 C46 C55 C56 C66)
+    c 0 0 = C11 ∧ c 0 1 = C12 ∧ c 0 2 = C13 ∧ c 0 3 = C14 ∧ c 0 4 = C15 ∧ c 0 5 = C16 ∧ c 1 1 = C22 ∧ c 1 2 = C23 ∧
+    c 1 3 = C24 ∧ c 1 4 = C25 ∧ c 1 5 = C26 ∧ c 2 2 = C33 ∧ c 2 3 = C34 ∧ c 2 4 = C35 ∧ c 2 5 = C36 ∧ c 3 3 = C44 ∧
+    c 3 4 = C45 ∧ c 3 5 = C46 ∧ c 4 4 = C55 ∧ c 4 5 = C56 ∧ c 5 5 = C66 := by
+  simp [m6, ctor_C11_C12_C13_C14_C15_C16_C22_C23_C24_C25_C26_C33_C34_C35_C36_C44_C45_C46_C55_C56_C66]
+end named
+
 end Atomman.C11
